@@ -159,7 +159,11 @@ def pair_list(representative, per_op=None):
     return out
 
 
-def make_drv_pair(pairs, values, fam="pair", consumer_srcs=("const", "init_in")):
+ALIAS_PRODUCERS = ("Identity", "Cast", "CastLike", "Reshape", "Squeeze", "Unsqueeze", "Transpose", "Flatten", "Expand",
+                   "Neg", "Abs", "Relu")
+
+
+def make_drv_pair(pairs, values, fam="pair", consumer_srcs=("const", "init_in"), xsrc="in"):
     def drv(ch):
         pid, cid, k = ch.all("pair", pairs)
         p, c = mz.BY_ID[pid], mz.BY_ID[cid]
@@ -168,10 +172,15 @@ def make_drv_pair(pairs, values, fam="pair", consumer_srcs=("const", "init_in"))
                  {"cfg": cid, "ops": _operand_choices(ch, c, "c", srcs=list(consumer_srcs) if values else ["const"],
                                                       values=values)}]
         outs = ch.choose("outs", ["last", "all"])
-        it = dict(fam=fam, steps=steps, x=[k, xi], xsrc="in", outs=outs)
+        it = dict(fam=fam, steps=steps, x=[k, xi], xsrc=xsrc, outs=outs)
         it.update(dict(wrap=list(WRAPM[0]), opset=18, api="optimize", opts={}, entry="proto", vi=False))
         return it
     return drv
+
+
+def alias_pair_list():
+    """producer->consumer pairs whose producer is an op the folder turns into (or tracks as) an alias of its input"""
+    return [(pid, cid, k) for (pid, cid, k) in pair_list(True, per_op=2) if mz.BY_ID[pid].op in ALIAS_PRODUCERS]
 
 
 def rule_adjacent():
@@ -467,6 +476,10 @@ def plan_c03(tier, with_corpus=True):
     if tier == "quick":
         items += _run(drv_single, 1, fam, "single")
         items += _run(make_drv_pair(pair_list(True, per_op=2), False), 0, fam, "pair")
+        # the primary value is an overridable initializer (initializer that is also a graph input) reaching the
+        # consumer through an alias-like producer: a seeded defect folded Add(Identity(c), Identity(c))
+        items += _run(make_drv_pair(alias_pair_list(), False, "pair_alias_of_overridable", xsrc="init_in"), 0, fam,
+                      "pair_alias_of_overridable")
         items += _run(make_drv_pair(rulepair_list(False), True, "rulepair", consumer_srcs=["const"]), 1, fam, "rulepair")
         items += _run(make_drv_shape3(shape3_list(True), False), 0, fam, "shape3")
         items += _run(drv_tmpl, 0, fam, "tmpl")
